@@ -278,38 +278,46 @@ def accept_errors(ctx, rid):
     ctx.need(len(sites) >= 2, rid + ": accept sites of the sync / threaded worker not found")
     tolerated = ("EAGAIN", "EWOULDBLOCK", "ECONNABORTED")
     others = ("ECONNRESET", "EMFILE", "ENFILE", "EBADF", "EINVAL", "ENOMEM", "EINTR")
+    # the class the interpreter raises for an errno (PEP 3151): a clause may name the errno or the class
+    CLS = {"EAGAIN": "BlockingIOError", "EWOULDBLOCK": "BlockingIOError", "ECONNABORTED": "ConnectionAbortedError", "ECONNRESET": "ConnectionResetError", "EINTR": "InterruptedError"}
     verdicts = {}
     n = 0
     for f, sn in sites:
         ctx.fn(f)
         g = f.cfg
-        hs = [b for b, l in sn.out if l == "exc" and b.kind == "handler" and (b.ast.type is None or any(x in norm(b.ast.type) for x in ("OSError", "Exception", "EnvironmentError", "error")))]
-        if not hs:
-            if f.name == "accept" and f.cls is not None and f.cls.name == "SyncWorker":
-                continue        # judged where it is expanded into the run loops, whose clause catches it
-            ctx.bad(rid, key(f, "accept-errors|no-handler"), site(f, sn), "an OSError from accept() is not caught in %s: a client that aborts before accept() ends the worker" % f.short)
-            continue
-        n += 1
-        h = hs[0]
-        body = set(x.id for x in g.nodes if x.ast is not None and (x.ast is h.ast or any(a is h.ast for a in f.module.ancestors(x.ast))))
-        hv = h.ast.name
-
-        def atom_of(e, hv=hv):
-            if hv and norm(e) in ("%s.errno" % hv, "%s.args[0]" % hv):
-                return "ERRNO"
-            return None
+        call = next((c for root in sn.cover for c in ast.walk(root) if isinstance(c, ast.Call) and isinstance(c.func, ast.Attribute) and c.func.attr == "accept"), None)
+        ctx.need(call is not None, rid + ": accept() call not found at its site")
+        any_handler = False
         for err in tolerated + others:
-            outs = Explorer(f, atom_of=atom_of).run(h, {"ERRNO": "@errno." + err}, stop=lambda x: x.id not in body)
-            got = set()
-            for o in outs:
-                if o.kind == "raise" or (o.kind == "stop" and o.detail.kind in ("handler", "raise")):
-                    got.add("propagates")
-                else:
-                    got.add("swallowed")
+            h = _landing(repo, f, call, CLS.get(err, "OSError"), follow_reraise=False)
+            if h is None:
+                got = {"propagates"}
+            else:
+                any_handler = True
+                hn = [x for x in g.nodes if x.kind == "handler" and x.ast is h]
+                ctx.need(hn, rid + ": handler node not found")
+                body = set(x.id for x in g.nodes if x.ast is not None and (x.ast is h or any(a is h for a in f.module.ancestors(x.ast))))
+                hv = h.name
+
+                def atom_of(e, hv=hv):
+                    if hv and norm(e) in ("%s.errno" % hv, "%s.args[0]" % hv):
+                        return "ERRNO"
+                    return None
+                outs = Explorer(f, atom_of=atom_of).run(hn[0], {"ERRNO": "@errno." + err}, stop=lambda x: x.id not in body)
+                got = set()
+                for o in outs:
+                    if o.kind == "raise" or (o.kind == "stop" and o.detail.kind in ("handler", "raise")):
+                        got.add("propagates")
+                    else:
+                        got.add("swallowed")
             verdicts.setdefault(err, {})[f.short] = got
             if err in tolerated:
-                ctx.check(rid, got == {"swallowed"}, key(f, "accept-errors|" + err), site(f, h), "accept() failing with %s %s in %s: the worker's main loop dies because a client aborted before accept() / a sibling won the race" % (
-                    err, sorted(got), f.short), "%s swallowed" % err)
+                if h is None and f.name == "accept" and f.cls is not None and f.cls.name == "SyncWorker":
+                    continue        # judged where it is expanded into the run loops, whose clause catches it
+                ctx.check(rid, got == {"swallowed"}, key(f, "accept-errors|" + err), site(f, sn), "accept() failing with %s (%s) %s in %s: the worker's main loop dies because a client aborted before accept() / a sibling "
+                          "won the race" % (err, CLS.get(err, "OSError"), sorted(got), f.short), "%s swallowed" % err)
+        if any_handler:
+            n += 1
     for err in others:
         vs = set(tuple(sorted(v)) for v in verdicts.get(err, {}).values())
         ctx.check(rid, len(vs) <= 1, "accept-errors-agree|" + err, "gunicorn/workers: accept() error handling", "the workers disagree on accept() failing with %s: %s" % (err, verdicts.get(err)), "siblings agree on %s" % err)
@@ -485,14 +493,20 @@ def r3(ctx):
     T = known_client_errors
     # the peer address may be '' (AF_UNIX): it is normalised before anything subscripts it
     ADDR = f.params[3]
-    normz = [s for s in stores_to_name(f, ADDR) if isinstance(s.ast, ast.Assign) and isinstance(s.ast.value, ast.BoolOp) and isinstance(s.ast.value.op, ast.Or)
-             and isinstance(s.ast.value.values[-1], ast.Tuple)]
-    subs = [n for n in g.nodes if n not in normz and any(isinstance(x, ast.Subscript) and isinstance(x.value, ast.Name) and x.value.id == ADDR for root in n.cover for x in ast.walk(root))]
+    subs = [n for n in g.nodes if n.ast is not None and any(isinstance(x, ast.Subscript) and isinstance(x.value, ast.Name) and x.value.id == ADDR and isinstance(x.ctx, ast.Load)
+                                                            for root in n.cover for x in ast.walk(root))]
     if subs:
-        bad = [u for u in subs if not any(g.dominates(z, u, follow_exc=False) for z in normz)]
-        ctx.check("C05.R3", not bad, key(f, "addr-normalised"), site(f, bad[0] if bad else subs[0]),
-                  "`%s[..]` is evaluated on a path where the unix-socket peer address ('') was not normalised: IndexError inside handle_error escapes the worker's last-resort handler "
-                  "(no error reply; the sync worker dies)" % ADDR, "addr = addr or ('', -1) dominates every addr[..]")
+        # evaluated: handle_error entered with the two peer addresses an AF_UNIX listener produces ('' from accept(), None from
+        # callers that have none) and everything else unknown: wherever `addr[..]` is evaluated, addr is a tuple by then
+        def probe(ex, env):
+            return ex.ev(ast.Name(id=ADDR, ctx=ast.Load()), env)
+        for peer in ("", None):
+            outs = Explorer(f).run(g.entry, {ADDR: peer}, probes={n.id: ("addr@%d" % n.id, probe) for n in subs})
+            seen = set(v for o in outs for (nm, v) in o.events if isinstance(nm, str) and nm.startswith("addr@"))
+            bad = [v for v in seen if not isinstance(v, tuple)]
+            ctx.check("C05.R3", not bad, key(f, "addr-normalised|%r" % (peer,)), site(f, subs[0]),
+                      "`%s[..]` is evaluated while the peer address still is %r (a connection on a unix socket): IndexError / TypeError inside handle_error escapes the worker's last-resort "
+                      "handler (no error reply; the sync worker dies)" % (ADDR, bad[0] if bad else peer), "addr is a tuple wherever it is subscripted")
     # handle_error trusts exc.req to be a request object: every constructor call that fills the `req` slot passes `self`
     err_mod = repo.module(ERR)
     n_req = 0
